@@ -187,7 +187,7 @@ def _worker(widx, wseed, tier, check):
             why = check.history_oracle(case, sc, stats)
             if why is not None:
                 raise Failure(why)
-        f = hyp_search(history(6 if quick else 9, 25 if quick else 40), prop, wseed, 600 if quick else 12000, stats)
+        f = hyp_search(history(6 if quick else 9, 25 if quick else 40), prop, wseed, 600 if quick else 7000, stats)
         if f:
             failures.append(f)
         from .. import qchecks as qprog
